@@ -752,6 +752,35 @@ func genRolloutWorld(c *Ctx) rsWorld {
 		}
 		br = b
 	}
+	if c.Rng.Intn(14) == 0 && ro.Sub != nil && wl != nil && nsteps >= 2 {
+		// focused stream: the plan was edited while a step is in progress; the BatchRelease still carries the OLD plan, its
+		// partition is ahead of the batch it has reached (the Rollout raised it, the BatchRelease has not reconciled yet)
+		ro.Paused, ro.Disabled, ro.Deleting, ro.Phase, ro.Reason, ro.Term = false, false, false, "Progressing", "inRolling", "none"
+		ro.Sub.Hash, ro.Sub.FinStep, ro.Sub.CanaryRev = "differs", "empty", canaryRev
+		wl.Consistent, wl.InProgressAnno, wl.CanaryRev, wl.StableRev, wl.InRollback = true, true, canaryRev, stableRev, false
+		p := 1 + c.Rng.Intn(nsteps-1)
+		ro.Sub.CurIdx = 1 + c.Rng.Intn(nsteps)
+		ro.Sub.NextIdx = ro.Sub.CurIdx + 1
+		if ro.Sub.CurIdx >= nsteps {
+			ro.Sub.NextIdx = -1
+		}
+		b := &rsBR{RolloutID: canaryRev, SpecOther: true, HashSame: true, GenObserved: true, BatchReady: c.Rng.Intn(2) == 0, Partition: &p, CurrentBatch: c.Rng.Intn(p + 1)}
+		// the old plan: the same number of batches, larger (or equal) entries
+		for i, st := range steps {
+			e := st.Replicas
+			if v, ok := e["p"].(int); ok {
+				nv := v + []int{0, 10, 30, 50}[c.Rng.Intn(4)]*(i+1)/nsteps
+				if nv > 100 {
+					nv = 100
+				}
+				e = J{"p": nv}
+			} else if v, ok := e["i"].(int); ok {
+				e = J{"i": v + c.Rng.Intn(3)*(i+1)}
+			}
+			b.Batches = append(b.Batches, e)
+		}
+		br = b
+	}
 	n := trNet{StableExists: c.Rng.Intn(15) != 0, StableIngress: c.Rng.Intn(15) != 0}
 	if c.Rng.Intn(2) == 0 {
 		r := pickS(c, "v1", "v1", "v2")
